@@ -140,11 +140,12 @@ def run(ctx, replay):
     # ---- T: seeded random Go histories over a larger universe with all sizes/hashes
     rnd_h = 25 if quick else 150
 
-    def rwork(cfg):
+    def rwork(cfgu):
+        cfg, univ = cfgu
         safe = re.sub(r"[^A-Za-z0-9]+", "_", cfg)
-        out = ctx.path("rnd_%s.ndjson" % safe)
+        out = ctx.path("rnd_%s_%s.ndjson" % (safe, univ))
         rc, so, se = ctx.run([drv, "-cfg", cfg, "-out", out, "-n", "8", "-seed", str(ctx.seed), "-random", str(rnd_h),
-                              "-rlen", "40"], timeout=900, ok_codes=None)
+                              "-rlen", "40", "-univ", univ], timeout=900, ok_codes=None)
         if rc != 0:
             m = re.search(r"panic: (.*)", se)
             if m:
@@ -153,12 +154,14 @@ def run(ctx, replay):
                                 "driver died: panic: %s" % m.group(1))
                 return 0, 0
             raise vlib.MachineryError("driver failed on %s: %s" % (cfg, se[-2000:]))
-        validate(ctx, cfg, out, 8, ctx.seed, "rnd", None)
+        validate(ctx, cfg, out, 8, ctx.seed, "rnd" if univ == "std" else "rnd-" + univ, None)
         os.remove(out)
         m = re.search(r"histories=(\d+) events=(\d+)", so)
         return int(m.group(1)), int(m.group(2))
     with ThreadPoolExecutor(max_workers=8) as ex:
-        for h, e in ex.map(rwork, cfgs):
+        # blobpacked stores also get the "packable" universe: its file schema blob describes a file made of the big blob,
+        # so that the store packs the two and packed and loose blobs coexist in the histories
+        for h, e in ex.map(rwork, [(c, "std") for c in cfgs] + [(c, "packable") for c in cfgs if "blobpacked" in c]):
             total_h += h
             total_e += e
     ctx.cov["traces_validated_against_impl"] = total_h
